@@ -133,3 +133,95 @@ def vcs(B):
     fs = ['toSpherical', 'toCartesian3']
     for i, nm in enumerate('xyz'):
         B.vc('spherical.cartesian_to_spherical_to_cartesian.' + nm, app('=', back3[i], x3[i]), nz3, functions=fs, timeout=120)
+    B.take_obligations()
+    quaternion_route(B)
+
+
+def quaternion_route(B):
+    """eulerAnglesToQuaternion / eulerAnglesToRotation3D / quaternionToEulerAngles through the assumed contracts of Eigen/Geometry
+    (AngleAxis -> quaternion, Hamilton product, toRotationMatrix as Eigen writes it, normalized() = q / |q|)."""
+    for nm in ['eulerAnglesToQuaternion', 'eulerAnglesToRotation3D', 'quaternionToEulerAngles']:
+        B.function(nm, '', nm)
+    B.extract()
+    ang = [B.real('q_roll'), B.real('q_pitch'), B.real('q_yaw')]
+    q = B.call('eulerAnglesToQuaternion', list(ang))
+    Rq = B.call('eulerAnglesToRotation3D', list(ang))
+    B.take_obligations()
+    fq = ['eulerAnglesToQuaternion', 'eulerAnglesToRotation3D']
+    # the argument of sin/cos the code uses for each angle (the half angle, as the extraction prints it); that it IS the half angle is
+    # the guard 2h = a of the double-angle instances below
+    half = []
+    for a in ang:
+        cands = [symalg.sshow(symalg.sparse(t)[1]) for t in symalg_sub(' '.join(q) if False else '(+ ' + ' '.join(q) + ')', 'f_sin') if a in t]
+        cands = list(dict.fromkeys(cands))
+        if len(cands) != 1:
+            from front import ExtractError
+            raise ExtractError('C10 spec: eulerAnglesToQuaternion: expected one sine argument per angle, got %r' % (cands,))
+        half.append(cands[0])
+    for t in ang + half:
+        B.libm('sin', [t], 'true'); B.libm('cos', [t], 'true')
+    # half-angle facts (instances of the double-angle schema, guard 2*(a/2) = a), proved once and then used as polynomial hypotheses
+    hfacts = []
+    for a, h, nm in zip(ang, half, ('roll', 'pitch', 'yaw')):
+        f = land(app('=', S(a), mul('2.0', mul(S(h), C(h)))), app('=', C(a), sub(mul(C(h), C(h)), mul(S(h), S(h)))))
+        B.vc('lemma.double_angle_of_half_%s' % nm, f, [B.axiom('sin_half', a, h)], functions=fq)
+        hfacts += [app('=', S(a), mul('2.0', mul(S(h), C(h)))), app('=', C(a), sub(mul(C(h), C(h)), mul(S(h), S(h))))]
+    # C10: the quaternion built from the angles is a unit quaternion ...
+    n2 = add(add(add(mul(q[0], q[0]), mul(q[1], q[1])), mul(q[2], q[2])), mul(q[3], q[3]))
+    B.vc('eulerAnglesToQuaternion.is_unit_quaternion', app('=', n2, '1.0'), [], functions=fq, timeout=120)
+    # ... and describes the same rotation as the textbook Rz*Ry*Rx (the matrix SmartRotation3D is proved to report)
+    env = {'sx': S(ang[0]), 'cx': C(ang[0]), 'sy': S(ang[1]), 'cy': C(ang[1]), 'sz': S(ang[2]), 'cz': C(ang[2])}
+    Rt = symalg.rot_zyx()
+    for i in range(3):
+        for j in range(3):
+            B.vc('eulerAnglesToRotation3D[%d,%d].is_RzRyRx' % (i, j), app('=', Rq[3 * i + j], Rt[i][j].smt(env)), hfacts, functions=fq, timeout=120)
+    # quaternionToEulerAngles: the matrix handed to rotation3DToEulerAngles is that of q / |q|, hence invariant under q -> k q (k != 0),
+    # and for the unit quaternion of a triple of angles it is Rz*Ry*Rx of those angles (then 'angles -> R -> angles' above applies)
+    qs = B.vec('qq', 4)        # Eigen coefficient order x, y, z, w
+    kk = B.real('q_scale')
+    e1 = B.call('quaternionToEulerAngles', list(qs))
+    e2 = B.call('quaternionToEulerAngles', [mul(kk, c) for c in qs])
+    B.take_obligations()
+    fqe = ['quaternionToEulerAngles', 'rotation3DToEulerAngles', 'between0And2Pi']
+    nq = add(add(add(mul(qs[0], qs[0]), mul(qs[1], qs[1])), mul(qs[2], qs[2])), mul(qs[3], qs[3]))
+    sq1 = [t for t in symalg_sub(e1[0], 'f_sqrt')]
+    sq2 = [t for t in symalg_sub(e2[0], 'f_sqrt')]
+    if len(sq1) > 1 or len(sq2) > 1 or len(sq1) != len(sq2):
+        from front import ExtractError
+        raise ExtractError('C10 spec: quaternionToEulerAngles: unexpected square roots')
+    dq = [app('>', nq, '0.0'), lnot(app('=', kk, '0.0'))]
+    gen, gfacts = [], list(dq)
+    if sq1:
+        # the code normalises with one square root: |q| > 0, |q|^2 = q.q (lemmas), then generalised to symbols
+        n1g, n2g = B.real('norm_q_gen'), B.real('norm_kq_gen')
+        B.vc('lemma.norm_of_q_positive', land(app('>', sq1[0], '0.0'), app('=', mul(sq1[0], sq1[0]), nq)), dq, functions=fqe)
+        B.vc('lemma.norm_of_scaled_q', land(app('>', sq2[0], '0.0'), app('=', mul(sq2[0], sq2[0]), mul(mul(kk, kk), nq))), dq, functions=fqe, timeout=120)
+        gen = [(sq2[0], n2g), (sq1[0], n1g)]
+        gfacts = dq + [app('>', n1g, '0.0'), app('=', mul(n1g, n1g), nq), app('>', n2g, '0.0'), app('=', mul(n2g, n2g), mul(mul(kk, kk), nq))]
+    # the angles are functions (atan2, asin, normaliser) of five entries of the matrix of q/|q|: equal entries give equal angles
+    # (congruence).  The entries are read off the result terms: arguments of atan2 (roll: M21, M22; yaw: M10, M00) and of asin (pitch: M20)
+    def entries(e):
+        out = []
+        for i, head in ((0, 'f_atan2'), (1, 'f_asin'), (2, 'f_atan2')):
+            ts = symalg_sub(e[i], head)
+            if len(ts) != 1:
+                from front import ExtractError
+                raise ExtractError('C10 spec: rotation3DToEulerAngles: expected one %s in angle %d' % (head, i))
+            out += [symalg.sshow(x) for x in symalg.sparse(ts[0])[1:]]
+        return out
+    m1, m2 = entries(e1), entries(e2)
+    for nm, x1, x2 in zip(('M21', 'M22', 'M20', 'M10', 'M00'), m1, m2):
+        B.vc('quaternionToEulerAngles.invariant_under_scaling_of_the_quaternion.' + nm, app('=', x2, x1), gfacts, functions=fqe, timeout=120, subst=gen)
+
+
+def symalg_sub(term, head):
+    out = []
+
+    def walk(t):
+        if isinstance(t, list):
+            if t and t[0] == head:
+                out.append(symalg.sshow(t))
+            for x in t[1:]:
+                walk(x)
+    walk(symalg.sparse(term))
+    return list(dict.fromkeys(out))
